@@ -332,6 +332,14 @@ func (s *Session) Post(body string, headers ...string) (int, error) {
 	return code, err
 }
 
+// PostNoCount sends an action list without touching the session counters (for concurrent posting;
+// the caller adds the accepted ones to Posted afterwards).
+func (s *Session) PostNoCount(body string) (int, error) {
+	req := fmt.Sprintf("POST / HTTP/1.1\r\nHost: localhost\r\nContent-Length: %d\r\n\r\n%s", len(body), body)
+	code, _, err := s.http(req, 15*time.Second)
+	return code, err
+}
+
 // Get fetches the state; limit 0 = default window of 100 matches.
 func (s *Session) Get(limit int, headers ...string) (*Status, error) {
 	path := "/"
@@ -606,6 +614,7 @@ func (s *Session) TmpFiles() []string {
 type Proc struct {
 	Pid  int
 	PPid int
+	Pgid int
 	Sid  int
 	Comm string
 	Cmd  string
@@ -636,6 +645,7 @@ func (s *Session) SessionProcs() []Proc {
 			continue
 		}
 		ppid, _ := strconv.Atoi(f[1])
+		pgid, _ := strconv.Atoi(f[2])
 		sid, _ := strconv.Atoi(f[3])
 		if sid != s.PanePid || pid == s.PanePid {
 			continue
@@ -645,7 +655,7 @@ func (s *Session) SessionProcs() []Proc {
 		if f[0] == "Z" {
 			cmd += " <zombie>"
 		}
-		out = append(out, Proc{pid, ppid, sid, string(stat[l+1 : r]), cmd})
+		out = append(out, Proc{pid, ppid, pgid, sid, string(stat[l+1 : r]), cmd})
 	}
 	return out
 }
